@@ -62,6 +62,12 @@ def run(tier):
             for tail in ((b'', b',7') if q else (b'', b',7', b',1.5', b',true', b',{"a":"\\u0001"}')):
                 t = b'["' + b'\\u0001' * k + b'","' + b'a' * m + b'"' + tail + b']'
                 tight.append(dict(t=list(t), ok=True, tight=True))
+    # content before a long string that expands 6x: the growth request is below twice the capacity while write position +
+    # request is above it
+    for p in ((0, 3, 5, 6) if q else range(0, 9)):
+        for k in ((40, 60, 69, 70, 71, 85) if q else list(range(20, 100, 4)) + [69, 70, 71]):
+            t = b'[' + b'18446744073709551615,' * p + b'"' + b'\\u0001' * k + b'",7]'
+            tight.append(dict(t=list(t), ok=True, tight=True))
     recs += tight
     seen = set()
     for r in recs:
